@@ -700,6 +700,18 @@ impl ModelSink {
         }
     }
 
+    /// A script detaches one currently attached element (chosen by `selector`) from its parent.
+    pub fn script_remove(&self, selector: u32) -> bool {
+        let mut dom = self.dom.borrow_mut();
+        let attached: Vec<Id> = (1..dom.nodes.len() as Id).filter(|&i| dom.is_element(i) && dom.n(i).parent.is_some()).collect();
+        if attached.is_empty() {
+            return false;
+        }
+        let victim = attached[selector as usize % attached.len()];
+        dom.detach(victim);
+        true
+    }
+
     // ---- C18 collector -------------------------------------------------
 
     /// Poison every node not connected (parent/child/template links, both
